@@ -599,6 +599,45 @@ def cache_coverage(rec, F):
         rec.finding(R, "F4.cache-cover/c", "Vm::repl compiles every entry into one module, but Compiler::new starts a fresh CacheIdEmitter and Vm::compile replaces inline_cache[m.id()] with a cache sized for the latest entry only: slot ids embedded in earlier entries' code index past the end", loc=cn.loc, fn=cn.path)
 
 
+def backtrace_window(rec, F):
+    R = rec.rule("F10.bt", "pause_unwind appends the instruction pointers of the frames not yet recorded: counting from the innermost frame it first skips the current_len already recorded and then takes additional_len (which is computed relative to that position); finish_unwind/error_backtrace pair frames with those ips innermost first")
+    pu = F.fn("laythe_vm::fiber::Fiber::pause_unwind")
+    if pu is None:
+        rec.anchor_lost("F10.bt", "Fiber::pause_unwind")
+        return
+    names = {}
+    for bi, t in pu.calls():
+        n = lastseg(t["f"])
+        if n in ("skip", "take", "rev"):
+            names[n] = (bi, t)
+    ok = all(k in names for k in ("skip", "take", "rev"))
+    if ok:
+        d_take = str(sem.desc_operand(pu, names["take"][1]["args"][0]))
+        d_skip = str(sem.desc_operand(pu, names["skip"][1]["args"][0]))
+        ok = "'skip'" in d_take and "'take'" not in d_skip and "'rev'" in d_skip
+        # skip count = already recorded ips ; take count = the computed difference
+        sk = str(sem.desc_operand(pu, names["skip"][1]["args"][1]))
+        tk = str(sem.desc_operand(pu, names["take"][1]["args"][1]))
+        ok = ok and "backtrace_ips" in sk and "Sub" in tk
+    rec.inst(R, "pause_unwind: rev().skip(recorded).take(missing)", ok=ok, loc=pu.loc)
+    if not ok:
+        rec.finding(R, "F10.bt/pause_unwind-window", "Fiber::pause_unwind no longer selects frames.rev().skip(<ips already recorded>).take(<missing count>): when unwinding resumes across frames some call sites are dropped from (or duplicated in) the backtrace", loc=pu.loc, fn=pu.path)
+    eb = F.fn("laythe_vm::fiber::Fiber::error_backtrace")
+    if eb is not None:
+        ns = [lastseg(t["f"]) for _, t in eb.calls()]
+        ok2 = "rev" in ns and "zip" in ns and "take" in ns
+        rec.inst(R, "error_backtrace: frames.rev().take(n).zip(ips)", ok=ok2, loc=eb.loc)
+        if not ok2:
+            rec.finding(R, "F10.bt/error_backtrace", "Fiber::error_backtrace no longer pairs frames (innermost first) with the recorded ips", loc=eb.loc, fn=eb.path)
+    pe = F.fn("laythe_vm::fiber::Fiber::print_error")
+    if pe is not None:
+        ns = [lastseg(t["f"]) for _, t in pe.calls()]
+        ok3 = "rev" in ns
+        rec.inst(R, "print_error: frames innermost first", ok=ok3, loc=pe.loc)
+        if not ok3:
+            rec.finding(R, "F10.bt/print_error-order", "Fiber::print_error no longer walks the frames innermost first", loc=pe.loc, fn=pe.path)
+
+
 def run_c17(rec, F):
     export_gate(rec, F)
     once_only(rec, F)
@@ -608,3 +647,4 @@ def run_c18(rec, F):
     status_mapping(rec, F)
     hook_exit(rec, F)
     ip_minus_one(rec, F)
+    backtrace_window(rec, F)
